@@ -1012,7 +1012,12 @@ impl<'env> Executor<'env> {
             Error::new(ErrorKind::InvalidOperation, "cannot super outside of block")
         }));
 
-        if !state.blocks.get_mut(name).unwrap().push() {
+        // the current block does not exist in the block table of an included template
+        if !state
+            .blocks
+            .get_mut(name)
+            .map_or(false, |block_stack| block_stack.push())
+        {
             return Err(Error::new(
                 ErrorKind::InvalidOperation,
                 "no parent block exists",
